@@ -42,6 +42,39 @@ func init() {
 }
 
 func runC30(c *Ctx) {
+	// every tile slot that is allocated gets a routing table: FindPort dereferences the
+	// destination tile's table unconditionally, and tiles are reached through pointers
+	// that survive a re-allocation of the grid
+	{
+		p := c.P
+		n := 0
+		for _, fn := range p.SrcFuncs(func(pp string) bool { return pp == pkgPath("noc/networking/mesh") }) {
+			allocs := false
+			setsRT := false
+			for _, b := range fn.Blocks {
+				for _, in := range b.Instrs {
+					switch x := in.(type) {
+					case *ssa.MakeSlice:
+						if strings.HasSuffix(x.Type().String(), "mesh.tile") {
+							allocs = true
+						}
+					case *ssa.Store:
+						if fo := FieldOf(x.Addr); fo != nil && fo.Name() == "rt" && !isNilConst(x.Val) {
+							setsRT = true
+						}
+					}
+				}
+			}
+			if !allocs {
+				continue
+			}
+			n++
+			c.Check(setsRT, "tile-table", SSAFuncKey(fn), fn.Pos(), "allocated tile slots are given a routing table",
+				SSAFuncKey(fn)+" allocates tile slots but gives them no routing table: destination lookups keep pointers to tiles across grid re-allocations and dereference the tile's table unconditionally, so a tile left with a nil table makes every route to its ports fail (nil dereference) once the mesh outgrows the initial grid")
+		}
+		c.Check(n >= 1, "tile-table", "instances", 0, "tile allocations found", "no allocation of tile slots found in the mesh connector")
+	}
+
 	p := c.P
 	// (1) reset completeness
 	nn := c.fn("reset-completeness", "noc/networking/networkconnector", "Connector", "NewNetwork")
